@@ -23,7 +23,7 @@ for name in names:
 text = """
 ### 10.8 Independently seeded breaking changes (`seeded/<Cnn-k>/`, `tools/seeded.py`)
 
-%d changes were written by fresh sub-agents in nine rounds; each agent was given only the text of one
+%d changes were written by fresh sub-agents in ten rounds; each agent was given only the text of one
 property and a scratch worktree of /repo (nothing from /verif); from the second round on, the agents were also
 told which changes already existed for their property and asked for a different mechanism and site.  Each change
 is kept with its patch, the agent's demonstration program and `meta.json`; I confirmed every one myself in a
@@ -33,9 +33,9 @@ are run against a scratch copy with the patch applied (`VERIF_REPO`), never agai
 quick tier of the property's own check as it stood when the change arrived; %d were missed (most of them were
 caught by a neighbouring property's check, e.g. a scope leak seeded under C04 by C07) and led to the generator /
 oracle changes named in the last column, after which the property's own check catches them and the unchanged
-tree stays quiet.  The third round, which asked for variety beyond caches, was the hardest (15 of 28 missed); for the fourth round (40 changes) the descriptions were read first and about a dozen gaps were closed before running them, 6 were still missed; the fifth round (40 changes, agents asked for the hardest-to-notice change incl. non-JSON Python types and hangs) was treated the same way, 8 were still missed; the sixth round (40 changes, agents given the list of everything already seeded for their property and asked for what is left: untouched keywords, drafts and branches, two cooperating edits, boundaries, ordering assumptions) was run without reading the descriptions first: 13 were missed, one of them because of a slip in the harness itself (C19-9) and one as a harness error (C07-10); the seventh round (40 changes; agents asked for sites no earlier change touches, maintainer-style edits such as backports of later upstream features, effects visible only in secondary observables, and histories) was the most productive: 26 were missed at first.  One of its changes (a oneOf message naming only two of three matching subschemas) was dropped again: the listed properties say nothing about the wording of messages, so it breaks none of them.  The eighth round (40 changes) asked for the blind spots of a randomised tester -- size thresholds, rare coincidences between independently drawn parts, object identity and aliasing, state left behind by a call that died half-way; this time the agents' summaries were read first and the generators widened (sizes beyond 32, aliased parts, keyword-like names, deep recursion ...) before the run: of the 40, 12 were caught by what existed before the round, the others needed the additions named in the last column, one (C07-13) is not caught and one (C11-11) only in mirror image by C02.  The ninth round (40 changes) asked for triggers of a kind no earlier change had used (negative halves, single drafts' own keywords, two features combined, Python-level behaviour of the API objects, boundary values); 24 were caught as things stood (a handful thanks to additions made from the agents' summaries before the run), 10 needed the additions named in the last column, 5 are seen only by a neighbouring property's check and one (C18-15, a thread race of a few bytecodes) by none.
+tree stays quiet.  The third round, which asked for variety beyond caches, was the hardest (15 of 28 missed); for the fourth round (40 changes) the descriptions were read first and about a dozen gaps were closed before running them, 6 were still missed; the fifth round (40 changes, agents asked for the hardest-to-notice change incl. non-JSON Python types and hangs) was treated the same way, 8 were still missed; the sixth round (40 changes, agents given the list of everything already seeded for their property and asked for what is left: untouched keywords, drafts and branches, two cooperating edits, boundaries, ordering assumptions) was run without reading the descriptions first: 13 were missed, one of them because of a slip in the harness itself (C19-9) and one as a harness error (C07-10); the seventh round (40 changes; agents asked for sites no earlier change touches, maintainer-style edits such as backports of later upstream features, effects visible only in secondary observables, and histories) was the most productive: 26 were missed at first.  One of its changes (a oneOf message naming only two of three matching subschemas) was dropped again: the listed properties say nothing about the wording of messages, so it breaks none of them.  The eighth round (40 changes) asked for the blind spots of a randomised tester -- size thresholds, rare coincidences between independently drawn parts, object identity and aliasing, state left behind by a call that died half-way; this time the agents' summaries were read first and the generators widened (sizes beyond 32, aliased parts, keyword-like names, deep recursion ...) before the run: of the 40, 12 were caught by what existed before the round, the others needed the additions named in the last column, one (C07-13) is not caught and one (C11-11) only in mirror image by C02.  The ninth round (40 changes) asked for triggers of a kind no earlier change had used (negative halves, single drafts' own keywords, two features combined, Python-level behaviour of the API objects, boundary values); 24 were caught as things stood (a handful thanks to additions made from the agents' summaries before the run), 10 needed the additions named in the last column, 5 are seen only by a neighbouring property's check and one (C18-15, a thread race of a few bytecodes) by none.  The tenth round (14 changes for the seven properties with the fewest so far: C05 C08 C09 C11 C13 C14 C17; the ninth round's prompt, 15 minutes per agent) was run in a later, short session without reading the summaries first: 13 were caught as things stood (sibling-keyword suppression after a type failure, required/dependencies de-duplication, a (type, value) set key and a one-sided string guard in the equality helpers, inf.is_integer() and float subtraction in the numeric keywords, check_schema following the candidate's $schema, week dates and a leading '@', double percent-decoding and leading-zero indices, ErrorTree construction through __getitem__ and a cached total_errors counter); one (C11-16, a json.dumps shortcut in uniq() that tells 1 from 1.0 inside unhashable items and shows only through the Draft 3 metaschema's unique type / disallow arrays) was missed by C11 and led to the addition named in its row.
 
-A complete re-run of every registered check against all 307 changes at the end (`seeded/RESULTS.md`, built by
+A complete re-run of every registered check against all 307 changes of the first nine rounds (`seeded/RESULTS.md`, built by
 `tools/seeded_results.py` from the run logs) showed that detection of six earlier changes had been LOST through later
 generator work: C05-9 and C10-4 (the new large / extreme probes had taken places in the fixed probe budget and
 displaced the small probes that exposed them -- they now come on top of the budget), C10-10 (placing foreign
